@@ -124,26 +124,36 @@ def mapping_oracle(ctx):
 
 def evaluated(node):
     """(indicator name, requirement outcome) of the node's own expression under the installed content evaluation result, read off the PARTS of the
-    expression: every modal-mark part's condition is evaluated on its own (requirement_constraint_evaluation; C04 is checked separately), a bare
+    expression: every modal-mark part's resolved condition tree is given its outcome by the compositional semantics (computed here), a bare
     indicator is fulfilled, and the first fulfilled part -- else the last -- decides (the documented selection, C09; ahbicht's own selection loop is not
     asked). None if a part cannot be evaluated (invalid: C16; unresolvable; ...)"""
     from lark import Token, Tree
-
-    from ahbicht.expressions.requirement_constraint_expression_evaluation import requirement_constraint_evaluation
 
     res = valcorr.resolved(node[2])
     if res[0] != "ok" or not isinstance(res[1], Tree):
         return None
     canon = {"M": "MUSS", "MUSS": "MUSS", "S": "SOLL", "SOLL": "SOLL", "K": "KANN", "KANN": "KANN", "X": "X", "O": "O", "U": "U"}
+    from ahbicht.models.condition_nodes import ConditionFulfilledValue as V
+
+    from vlib import exprs
+
+    outcome_of_state = {V.FULFILLED: True, V.NEUTRAL: True, V.UNFULFILLED: False, V.UNKNOWN: None}
     parts = []
     for ch in res[1].children:
         if isinstance(ch, Token):
             parts.append((canon.get(str(ch).upper()), True))
         elif isinstance(ch, Tree) and len(ch.children) == 2 and isinstance(ch.children[0], Token) and isinstance(ch.children[1], Tree):
-            tag, v = evalimpl.outcome(lambda ch=ch: asyncio.run(requirement_constraint_evaluation(ch.children[1])))
-            if tag != "ok":
+            # the part's outcome by the compositional semantics (C04) on the resolved condition tree, computed here -- not by ahbicht's evaluation
+            try:
+                t = exprs.from_lark(ch.children[1])
+            except Exception:  # pylint: disable=broad-except
+                t = None
+            if t is None or not (exprs.dom(t) and exprs.valid(t)):
                 return None
-            parts.append((canon.get(str(ch.children[0]).upper()), v.requirement_constraints_fulfilled))
+            rho = {k: evalimpl._RC.get(k) for k in exprs.leaves(t) if exprs.kind(k) == "rc"}  # pylint: disable=protected-access
+            if any(v is None for v in rho.values()):
+                return None
+            parts.append((canon.get(str(ch.children[0]).upper()), outcome_of_state[exprs.sem(t, rho, V)]))
         elif isinstance(ch, Tree) and len(ch.children) == 1 and isinstance(ch.children[0], Token):
             parts.append((canon.get(str(ch.children[0]).upper()), True))
         else:
